@@ -37,7 +37,7 @@ def graph_cases(tier, rng):
 
 def cases(tier, rng):
     for g in graph_cases(tier, rng):
-        for rep in range(3 if tier == "quick" else 12):
+        for rep in range(6 if tier == "quick" else 16):
             c = dict(g)
             c.update({"mseed": rng.getrandbits(32), "nt": True})
             yield c
